@@ -337,6 +337,12 @@ class Peer:
             if not _valid(body, op.body_schema):
                 return self._bad("bad body")
         if op.kind == "create":
+            if self.u.desc.get("reuse_ids"):
+                # a correct API that hands out the smallest free identifier again after a delete
+                n = 1
+                while (n if c["id_type"] == "integer" else "r%d" % n) in store:
+                    n += 1
+                self.next_id[op.collection] = n
             if c["id_type"] == "integer":
                 new_id: Any = self.next_id[op.collection]
             else:
